@@ -129,6 +129,11 @@ Section Dispatch.
       entry of a subscription whose source had ended made HandleStart ignore a new subscription
       with that id); [false] is the current code. *)
   Variable keep_stale : bool.
+  (** [ka_early = true] is the pinned tree before the repair of the keep-alive defect (the graphql-ws
+      write loop's ticker ran from [Serve], so a connection that waited a period with its init got a
+      ka before its ack); [false] is the current code: the ticker is started when the read loop
+      signals that the first ack has been queued. *)
+  Variable ka_early : bool.
 
   Definition src_ended (n : nat) (l : list src) : bool :=
     existsb (fun x => Nat.eqb (s_op x) n && s_ended x) l.
@@ -251,6 +256,13 @@ Definition handle_close (s : st) : st * list ev :=
       | LEnd e =>
           let (s1, o1) := begin_closing (end_code e) s in
           let (s2, o2) := handle_close s1 in (s2, o1 ++ VGone :: o2)
+      | LTick =>
+          (* writeLoop: case <-keepAliveTicker.C: write the prepared keep-alive (graphql-ws: ka, only
+             once the ticker has been started by the first ack; graphql-transport-ws: pong) *)
+          (s, VTick :: match p with
+                       | PWs => if did_init s || ka_early then [VSend SKa None] else []
+                       | PTws => [VSend SPong None]
+                       end)
       end.
 
   Definition step (p : proto) (s : st) (l : label) : st * list ev :=
